@@ -22,19 +22,19 @@ PROPS["C17"] = {
                                   "sequences) and lies in [0,1], for ALL contents of the given lengths",
          "bounds": "lengths (la,lb) listed in the instance names, every char any Unicode scalar value; loop unwinding 8",
          "opts": {"unwind": 8, "timeout": 900},
-         "quick": grid("jac_fresh", [(0,0),(0,2),(2,0),(1,1),(1,2),(2,2),(2,3),(3,2),(3,3)]),
+         "quick": grid("jac_fresh", [(1,1),(1,2),(2,2),(2,3),(3,2),(3,3)]),
          "thorough": grid("jac_fresh", [(1,4),(4,1),(3,4),(4,3),(4,4),(2,5),(5,2),(4,5),(5,4),(5,5)])},
         {"id": "JAC-sym", "text": "rel_dist(b,a) == 1 - similarity(a,b) on independent instances (symmetry)",
          "bounds": "lengths as listed", "opts": {"unwind": 8, "timeout": 900},
-         "quick": grid("jac_sym", [(2,2),(3,2),(0,3)]), "thorough": grid("jac_sym", [(3,4)])},
+         "quick": grid("jac_sym", [(2,2),(3,2)]), "thorough": grid("jac_sym", [(3,4)])},
         {"id": "JAC-hist", "text": "history independence: with ARBITRARY previous contents of both scratch buffers "
                                    "(lengths p1,p2 shorter, equal, longer than needed) the value is the set similarity",
          "bounds": "(la,lb,p1,p2) as listed", "opts": {"unwind": 8, "timeout": 900},
-         "quick": grid("jac_hist", [(2,2,0,3),(2,3,1,5),(3,2,3,2)]),
+         "quick": grid("jac_hist", [(2,2,1,3),(2,3,1,5),(3,2,3,2)]),
          "thorough": grid("jac_hist", [(3,3,5,1),(4,4,6,1),(4,3,1,6)])},
         {"id": "JAC-merge", "text": "simple_similarity on strictly increasing inputs == |A∩B|/|A∪B|",
          "bounds": "lengths as listed", "opts": {"unwind": 8, "timeout": 900},
-         "quick": grid("jac_simple", [(0,3),(3,3),(2,4)]), "thorough": grid("jac_simple", [(4,4),(5,5),(6,6)])},
+         "quick": grid("jac_simple", [(3,3),(2,4)]), "thorough": grid("jac_simple", [(4,4),(5,5),(6,6)])},
     ],
 }
 
@@ -42,7 +42,7 @@ DL_UNWINDSET = [(r"DistMatrix::init", 24), (r"Vec::<f64>::extend_with", 70)]
 
 PROPS["C16"] = {
     "assumptions": ["words are built directly as WordView values (the tokeniser is not executed, DESIGN F5)"],
-    "outside": "words longer than 4 characters (5x2 in the thorough tier); matrices grown beyond 7x7; "
+    "outside": "empty words (the matcher returns before computing a distance; zero-length arrays blow up CBMC's pointer encoding); words longer than 4 characters (5x2 in the thorough tier); matrices grown beyond 7x7; "
                "'several times the capacity' is only covered through the arbitrary-pre-state lemma DL-hist",
     "lemmas": [
         {"id": "DL-laws", "text": "on a fresh DamerauLevenshtein of the given capacity: distance == 0 iff the words are equal; "
@@ -52,7 +52,7 @@ PROPS["C16"] = {
          "bounds": "(n1,n2,capacity) from the instance names; every char any Unicode scalar, every class any of the 8 classes; unwind 8 "
                    "(init loop 24, resize 70)",
          "opts": {"unwind": 8, "timeout": 1500, "unwindset": DL_UNWINDSET},
-         "quick": ["dl_laws_0_0_20", "dl_laws_0_2_20", "dl_laws_1_1_20", "dl_laws_1_2_20", "dl_laws_2_1_20", "dl_laws_2_2_2",
+         "quick": ["dl_laws_1_1_20", "dl_laws_1_2_20", "dl_laws_2_1_20", "dl_laws_2_2_2",
                    "dl_laws_2_3_3", "dl_laws_3_2_3", "dl_laws_3_1_1", "dl_laws_3_3_3"],
          "thorough": ["dl_laws_2_2_20", "dl_laws_3_3_20", "dl_laws_3_4_4", "dl_laws_4_3_4", "dl_laws_4_4_4", "dl_laws_2_5_5",
                       "dl_laws_5_2_5", "dl_laws_2_4_1"]},
@@ -71,11 +71,156 @@ PROPS["C16"] = {
         {"id": "DL-inv", "text": "the representation invariant assumed by DL-hist is re-established by every call (and the matrix is "
                                  "at least (n+2)x(n+2) with a flat buffer of size^2)",
          "bounds": "(n1,n2,S) as listed", "opts": {"unwind": 8, "timeout": 1500, "unwindset": DL_UNWINDSET},
-         "quick": ["dl_inv_2_2_2", "dl_inv_0_2_3", "dl_inv_2_3_5"], "thorough": ["dl_inv_3_1_6", "dl_inv_3_3_4"]},
+         "quick": ["dl_inv_2_2_2", "dl_inv_2_3_5"], "thorough": ["dl_inv_3_1_6", "dl_inv_3_3_4"]},
         {"id": "DL-prefix", "text": "after distance(a,b) the matrix cell for the prefix pair (i,j) equals distance(a[..i], b[..j]) computed "
                                     "on its own (what the word matcher reads)",
          "bounds": "(n1,n2,i,j) as listed", "opts": {"unwind": 8, "timeout": 1500, "unwindset": DL_UNWINDSET},
          "quick": ["dl_prefix_2_2_1_1", "dl_prefix_2_2_1_2", "dl_prefix_3_2_2_1"],
          "thorough": ["dl_prefix_3_3_2_2", "dl_prefix_3_3_2_3", "dl_prefix_3_3_3_2", "dl_prefix_3_3_1_3", "dl_prefix_4_3_3_3", "dl_prefix_3_4_2_4"]},
     ],
+}
+
+# ---------------------------------------------------------------------------------------------
+# C19: the same kernels with ALL of CBMC's pointer / bounds checks selected (checks != functional)
+# and the hook H3 (row < size && column < size) compiled in.
+PROPS["C19"] = {
+    "assumptions": ["H3: DistMatrix::get_unchecked / set_unchecked assert i < size && j < size under cfg(lucid_suggest_verif)"],
+    "outside": "the trigram counters (TrigramIndex::prepare is not executable within memory, DESIGN F12); words longer than "
+               "3-4 characters; matrix capacities other than those listed (growth is covered from arbitrary smaller matrices)",
+    "lemmas": [
+        {"id": "MEM-matrix", "text": "every get_unchecked/set_unchecked of the distance matrix has row < size and column < size (H3), and "
+                                     "every raw pointer access in DamerauLevenshtein::distance (cost vectors, previous-character reads, flat "
+                                     "matrix buffer) is inside its object - from ARBITRARY earlier matrices smaller, equal and larger than needed",
+         "bounds": "(n1,n2,S) of the dl_hist / dl_inv instances; all CBMC pointer checks selected",
+         "opts": {"unwind": 8, "timeout": 1500, "unwindset": DL_UNWINDSET},
+         "quick": ["dl_hist_2_2_2", "dl_hist_2_2_4", "dl_hist_2_2_6", "dl_hist_3_2_3", "dl_inv_2_3_5", "dl_laws_1_1_20", "dl_laws_2_1_20"],
+         "thorough": ["dl_hist_2_3_5", "dl_hist_3_3_2", "dl_hist_3_3_5", "dl_hist_3_3_7", "dl_hist_4_3_3", "dl_inv_3_1_6", "dl_laws_3_3_20", "dl_laws_4_4_4"]},
+        {"id": "MEM-jaccard", "text": "every unchecked read of the Jaccard merge (simple_similarity) and every buffer access of "
+                                      "Jaccard::similarity is in range, from ARBITRARY earlier buffer contents shorter / longer than needed",
+         "bounds": "(la,lb,p1,p2) of the jac_hist / jac_simple instances; all CBMC pointer checks selected",
+         "opts": {"unwind": 8, "timeout": 1500},
+         "quick": ["jac_hist_2_2_1_3", "jac_hist_2_3_1_5", "jac_hist_3_2_3_2", "jac_simple_3_3", "jac_simple_2_4"],
+         "thorough": ["jac_hist_3_3_5_1", "jac_hist_4_4_6_1", "jac_hist_4_3_1_6", "jac_simple_5_5", "jac_simple_6_6"],
+         "per_instance": {"jac_simple_5_5": {"unwind": 12}, "jac_simple_6_6": {"unwind": 14}, "jac_hist_4_4_6_1": {"unwind": 10}, "jac_hist_4_3_1_6": {"unwind": 10}}},
+    ],
+}
+
+LS_Q = ["ls_topk_0_0", "ls_topk_0_2", "ls_topk_1_1", "ls_topk_2_1", "ls_topk_3_1", "ls_topk_3_2", "ls_topk_3_3", "ls_topk_3_5",
+        "ls_topk_4_1", "ls_topk_5_2"]
+LS_T = ["ls_topk_4_2", "ls_topk_5_1", "ls_topk_5_3", "ls_topk_6_2", "ls_topk_6_3", "ls_topk_7_1", "ls_topk_7_2", "ls_topk_7_3",
+        "ls_topk_4_4", "ls_topk_4_6", "ls_stable_5_2", "ls_stable_3_4"]
+LS_LEMMA = {"id": "LS-topk", "text": "real LimitSortIter (limit_sort_unstable) over n items with symbolic keys: yields exactly min(limit,n) items, "
+                                     "each an input item, none twice, in comparator order, and no omitted item is strictly better than a listed "
+                                     "one - hence with pairwise distinct keys exactly the first `limit` of the full order, independent of the "
+                                     "input order, and equal to the truncation of the unlimited run",
+            "bounds": "(n,limit) from the instance names, n <= 7, limit in 1..6 (covers the sort-and-truncate-every-2*limit path for "
+                      "n >= 2*limit+1); keys any u32; unwind 10",
+            "opts": {"unwind": 10, "timeout": 900}, "quick": LS_Q, "thorough": LS_T}
+CMP_LEMMA = {"id": "CMP-order", "text": "compare_hits on three hits with ARBITRARY score vectors is the lexicographic 'higher component first' "
+                                        "order over (chars, words, tails, trans, fin, offset, rating, word count, char count): irreflexive, "
+                                        "antisymmetric, transitive, ties transitive, and two hits tie only if all nine components - in "
+                                        "particular the ratings - are equal",
+             "bounds": "all 3x9 isize components symbolic", "opts": {"unwind": 11, "timeout": 900},
+             "quick": ["cmp_strict_weak_order"], "thorough": []}
+
+PROPS["C06"] = {
+    "assumptions": ["glue (argument in DESIGN.md §5 C06, not solver-decided): Store::search is candidates -> map(score) -> filter -> "
+                    "limit_sort_unstable(limit, compare_hits) -> highlight; the per-record verdict is TM-local"],
+    "outside": "limit = 0 with a non-empty input (Kani artefact F13: zero-capacity vector + symbolic element), stores of more than 7 "
+               "candidates, the wiring of Store::search itself, the index cap (C18)",
+    "lemmas": [LS_LEMMA,
+               {"id": "TM-local", "text": "the verdict for one record (match vectors, all nine scores, filter decision) computed by the real "
+                                          "text_match/score/hit_matches after an earlier call on ANOTHER record and query equals the verdict "
+                                          "computed first thing: the thread-local scratch (RMATCHES, QMATCHES, distance matrix, Jaccard buffers) "
+                                          "carries nothing over",
+                "bounds": "title/query shapes of the instance names (1-2 letter words), all contents symbolic",
+                "opts": {"unwind": 7, "timeout": 2400, "checks": "functional", "mem_gb": 16},
+                "quick": ["tm_local_r1_q1"], "thorough": ["tm_local_r2_q2"]}],
+}
+PROPS["C07"] = {
+    "assumptions": ["glue (DESIGN.md §5 C07): the relative order of two hits is compare_hits of their own score vectors (TM-local, C06); "
+                    "with pairwise distinct ratings compare_hits never ties, so LS-topk's output is unique"],
+    "outside": "as C06",
+    "lemmas": [CMP_LEMMA, LS_LEMMA],
+}
+
+WM_OPTS = {"unwind": 7, "timeout": 2400, "checks": "functional", "mem_gb": 12}
+TM_OPTS = {"unwind": 7, "timeout": 2400, "checks": "functional", "mem_gb": 14}
+WORD_ASSUME = [
+    "WF: texts are built directly in the tokeniser's output format (DESIGN §4); the tokeniser itself is not executed",
+    "STEM: stem lengths are the concrete values in the instance names (the matcher's scan range depends on them); "
+    "POS: the function-word flag of every word is an arbitrary symbolic value",
+    "H4: the thread-local distance matrix starts with a capacity that fits the shape (DAMLEV_CAPACITY hook); capacity "
+    "independence of the distance is lemma DL-hist of C16",
+]
+WM_CONTRACT = {"id": "WM-contract", "text": "whatever the REAL word_match returns for two words of the given lengths/stems satisfies the match "
+                                             "contract: span starts at the word start, 1 <= title span <= word, stem <= query span <= word, spans differ "
+                                             "by at most one, typos a non-negative multiple of 0.5 not above 0.21*longest span, 2*ceil(typos) <= matched "
+                                             "length (no wrap-around in the score), flags consistent; and nothing panics / overflows on the way",
+               "bounds": "(|r|,|q|,stem_r,stem_q,finished) from the instance names, |r|,|q| <= 3; all chars, classes, POS flags symbolic",
+               "opts": WM_OPTS,
+               "quick": ["wm_con_1_1_1_1_f", "wm_con_1_1_1_1_u", "wm_con_2_2_2_2_f", "wm_con_2_2_1_1_u", "wm_con_2_1_2_1_u", "wm_con_1_2_1_2_f"],
+               "thorough": ["wm_con_3_3_3_3_f", "wm_con_3_3_2_2_f", "wm_con_3_3_1_1_u", "wm_con_3_2_3_2_u", "wm_con_2_3_2_3_f"]}
+WM_PREFIX = {"id": "WM-prefix", "text": "if the query word is the k-letter prefix of the title word (same characters and classes), unfinished - or "
+                                         "finished when k = |word| - the REAL word_match matches and reports exactly the span (0,k) on both sides with zero typos",
+             "bounds": "(|r|,k,stem_r,stem_q,finished) from the instance names, |r| <= 3", "opts": WM_OPTS,
+             "quick": ["wm_pre_1_1_1_1_u", "wm_pre_1_1_1_1_f", "wm_pre_2_1_2_1_u", "wm_pre_2_2_2_2_u", "wm_pre_2_2_1_1_f", "wm_pre_3_1_3_1_u"],
+             "thorough": ["wm_pre_3_2_3_2_u", "wm_pre_3_2_2_1_u", "wm_pre_3_3_3_3_u", "wm_pre_3_3_2_2_f"]}
+WM_EQ = {"id": "WM-equal", "text": "a finished exact copy of a word matches it in full with zero typos", "bounds": "(n,stem_r,stem_q), n <= 3",
+         "opts": WM_OPTS, "quick": ["wm_eq_1", "wm_eq_2", "wm_eq_2_s1"], "thorough": ["wm_eq_3", "wm_eq_3_s2"]}
+TRI_PREFIX = {"id": "TRI-prefix", "text": "a k-letter prefix of an n-letter word shares at least one gram with the word (real collect_grams on both), "
+                                          "and collect_grams returns exactly the set of distinct grams of the definition, strictly increasing",
+              "bounds": "(n,k) from the instance names, n <= 5", "opts": {"unwind": 8, "timeout": 1500, "checks": "functional", "mem_gb": 10},
+              "quick": ["idx_pre_1_1", "idx_pre_2_1", "idx_pre_2_2", "idx_pre_3_1", "idx_pre_3_2"], "thorough": ["idx_pre_3_3", "idx_pre_4_2", "idx_pre_4_3", "idx_pre_5_4"]}
+TM_STRUCT = {"id": "TM-structure", "text": "REAL text_match + score + hit_matches on a title and a query of the given shapes: no panic, no arithmetic "
+                                            "overflow; every title match is aligned with a title word, starts at its first character, is non-empty, ends inside "
+                                            "the word, each word matched at most once, in word order; no span is longer than the typed stretch + 1; a non-empty "
+                                            "query is kept only with at least one span; an empty query keeps every record with no span; the matched-characters "
+                                            "score is non-negative and the rating component is the record's rating",
+             "bounds": "title/query word shapes and stems from the instance names (words of 1-3 letters, at most 2 words); all chars, classes, POS flags, rating symbolic",
+             "opts": TM_OPTS,
+             "quick": ["tm_r1_q1", "tm_r2_q2", "tm_r2_q0", "tm_r0_q2"], "thorough": ["tm_r2_q2u", "tm_r3_q3", "tm_r3_q3u", "tm_r11_q1", "tm_r11_q11"]}
+
+PROPS["C03"] = {
+    "assumptions": WORD_ASSUME + ["glue (DESIGN §5 C03): record listed by the index (TRI-prefix + index completeness, which is outside reach) -> "
+                                  "word matched (WM-prefix) -> kept by text_match and the filter (TM-structure at one-word shapes) -> not truncated (LS-topk)"],
+    "outside": "words longer than 3 letters at the matcher level (4x4 exceeds 40 GB), longer than 5 at the gram level; the index's posting lists; the tokeniser",
+    "lemmas": [WM_PREFIX, TRI_PREFIX],
+}
+PROPS["C13"] = {
+    "assumptions": WORD_ASSUME + ["glue: as C03 with WM-equal for each word"],
+    "outside": "words longer than 3 letters; titles of more than one word at the text level (the two-word orderings are not decided); the tokeniser",
+    "lemmas": [WM_EQ],
+}
+PROPS["C05"] = {
+    "assumptions": WORD_ASSUME,
+    "outside": "words longer than 3 letters; 'original character that folds to two' (needs normalisation); the index soundness half (C18 is only "
+               "decided at the gram-set level)",
+    "lemmas": [WM_CONTRACT, WM_PREFIX,
+               dict(TM_STRUCT, id="TM-span", quick=["tm_r1_q1", "tm_r2_q2"], thorough=["tm_r3_q3", "tm_r2_q2u"])],
+}
+PROPS["C09"] = {
+    "assumptions": WORD_ASSUME + ["glue: highlight() emits one marker pair per title match from word.slice.0 to word.slice.0 + span (15 lines, "
+                                  "not solver-decided: String building with symbolic characters does not finish, DESIGN F11)"],
+    "outside": "the rendered string itself; titles of more than two words; words longer than 3 letters",
+    "lemmas": [TM_STRUCT],
+}
+PROPS["C01"] = {
+    "assumptions": WORD_ASSUME,
+    "outside": "the tokeniser and normalisation on arbitrary Unicode, Store/registry level, highlight string building, words longer than 3 letters, "
+               "more than two words per text; 'no hang' only as termination within the unwinding bounds",
+    "lemmas": [dict(TM_STRUCT, id="TM-safe"), dict(WM_CONTRACT, id="WM-safe"),
+               {"id": "K-safe", "text": "distance / Jaccard / LimitSort kernels: no panic, no overflow, all memory accesses in range (all CBMC checks selected)",
+                "bounds": "kernel shapes as listed", "opts": {"unwind": 10, "timeout": 1500, "unwindset": DL_UNWINDSET},
+                "quick": ["dl_laws_2_2_2", "dl_hist_2_2_2", "jac_fresh_2_3", "ls_topk_3_2"], "thorough": ["dl_laws_3_3_3", "jac_fresh_3_3", "ls_topk_7_3"]}],
+}
+PROPS["C18"] = {
+    "assumptions": ["only the gram-set level of the property is decided: which grams a word has and that a text's gram list is their duplicate-free set; "
+                    "the cap / ordering logic is LimitSortIter (LS-topk)"],
+    "outside": "TrigramIndex::add / prepare themselves (posting lists, counters, the 10 x size cap wiring): even one 1-letter record runs out of "
+               "memory under CBMC (DESIGN F12); so 'only existing positions', 'all sharers listed' are NOT decided",
+    "lemmas": [{"id": "TRI-iter", "text": "TrigramIter yields for a word of n letters exactly: its 1-letter start, its 2-letter start (NUL padded), then every "
+                                          "window of three letters, in order, and nothing else", "bounds": "n in 0..6, all chars symbolic",
+                "opts": {"unwind": 9, "timeout": 900}, "quick": ["idx_iter_1", "idx_iter_2", "idx_iter_3", "idx_iter_4"], "thorough": ["idx_iter_5", "idx_iter_6"]},
+               TRI_PREFIX, dict(LS_LEMMA, id="LS-cap")],
 }
